@@ -197,6 +197,38 @@ let handle = function
            | Inl _ -> out_tree r (forget t) false ^ " CRASH free of the result"
            | Inr h2 -> out_tree r (forget t) false ^ Printf.sprintf " leak=%d" (if h_live h2 = [] then 0 else 1)))
      | _ -> "?")
+  | ["idpatch"; mode; dh; ph] ->
+    (* node identities: document nodes 0.., patch document nodes 1000000.., nodes allocated by the call 2000000.. *)
+    let doc = (try parse_json (str_of_hex dh) with Parse_error -> raise Exit) in
+    let pn = parse_json (str_of_hex ph) in
+    let (_, idoc) = i_of_node Z0 Z0 doc in
+    let pbase = z_of_int 1000000 in
+    let (_, ipn) = i_of_node pbase Z0 pn in
+    (* the operand of an operation is a node OF the patch document: found again by physical identity *)
+    let tab = ref [] in
+    let rec zip (n : node) (i : inode) = tab := (n, i) :: !tab; List.iter2 zip (n_ch n) (i_ch i) in
+    zip pn ipn;
+    let inode_of (n : node) = snd (List.find (fun (m, _) -> m == n) !tab) in
+    let ops = (match mode with
+        | "tn" -> (match n_ty pn with TArr -> decode_ops_exact (n_ch pn) | _ -> Inl RcPatchInvalid)
+        | _ -> (match n_ty pn with TArr -> create_patch pn | _ -> Inl RcInvArgs)) in
+    (match ops with
+     | Inl e -> "rc=" ^ rcname e
+     | Inr raw ->
+       (match raw, parse_ops raw with
+        | [], _ -> "rc=ok own=" ^ String.concat "," (List.map (fun z -> "d" ^ string_of_z z) (i_ids idoc)) ^ " dup=0 par=ok"
+        | _, Inl e -> let cls z = "d" ^ string_of_z z in
+          Printf.sprintf "rc=%s own=%s dup=0 par=ok" (rcname e) (String.concat "," (List.map cls (i_ids idoc)))
+        | _, Inr pops ->
+          let ipops = List.map (fun o -> { ip_op = o.p_op; ip_path = o.p_path; ip_from = o.p_from;
+                                           ip_val = (match o.p_val with Some v -> Some (inode_of v) | None -> None) }) pops in
+          let (_, (r, t)) = i_apply_ops lib_reparent fo (z_of_int 2000000) idoc ipops in
+          let ids = i_ids t in
+          let cls z = let i = int_of_z z in
+            if i < 1000000 then Printf.sprintf "d%d" i else if i < 2000000 then Printf.sprintf "p%d" (i - 1000000) else "n" in
+          let rec dupl = function [] -> false | x :: r -> List.mem x r || dupl r in
+          Printf.sprintf "rc=%s own=%s dup=%d par=%s" (rcname r) (String.concat "," (List.map cls ids))
+            (if dupl (List.filter (fun z -> int_of_z z < 2000000) ids) then 1 else 0) (if i_parents_ok t then "ok" else "bad")))
   | ["reg"; mode; dh; pathh; vh] ->
     (* the registry holds a heap-allocated tree; one call; the last reference frees the tree *)
     let doc = (try parse_json (str_of_hex dh) with Parse_error -> raise Exit) in
